@@ -129,4 +129,48 @@ theorem validate_getElem (info : Info) (t0 : Nat) (pre rest : List Nat) (i : Nat
       rw [ih (pre ++ [c]) j hj]
       simp [List.append_assoc]
 
+/-! ### what is sent, at the level of `sendBatch` -/
+
+/-- nothing is sent for an empty or a rejected batch -/
+theorem sendBatch_unsent {info : Info} {batch : List Nat} {rounds : List Round} {R : Result}
+    (h : sendBatch info batch rounds = .ok R) (hbad : batch = [] ∨ ¬ ValidBatch info batch) :
+    R.events = [] := by
+  by_cases hne : batch = []
+  · subst hne
+    simp only [sendBatch, Outcome.ok.injEq] at h
+    subst h; rfl
+  · rcases hbad with h0 | hv
+    · exact absurd h0 hne
+    · rw [sendBatch_invalid hne hv, Outcome.ok.injEq] at h
+      subst h; rfl
+
+/-- a call handed to a region client in round `r` is one region location found a client for in
+round `r` (a call whose location failed — for whatever reason — is not queued) -/
+theorem sent_located {info : Info} {batch : List Nat} {rounds : List Round} {R : Result}
+    (h : sendBatch info batch rounds = .ok R) {r c : Nat} {rd : Round}
+    (hs : Sent R.events r c) (hrd : rounds[r]? = some rd) : locOk rd c = true := by
+  by_cases hbad : batch = [] ∨ ¬ ValidBatch info batch
+  · rw [sendBatch_unsent h hbad] at hs; exact absurd hs sent_nil
+  · have hne : batch ≠ [] := fun h0 => hbad (Or.inl h0)
+    have hv : ValidBatch info batch := Classical.byContradiction fun hv => hbad (Or.inr hv)
+    rw [sendBatch_valid hne hv] at h
+    obtain ⟨new, hev, _, _, _, _, _, h6, _⟩ := loop_events h (fun c hc => hc) (st0_length info batch)
+    have hev' : R.events = new := by simpa [st0] using hev
+    rw [hev'] at hs
+    exact h6 c r rd hs (by simpa using hrd)
+
+/-- a call sent in round `r + 1` was sent in round `r` -/
+theorem sent_pred {info : Info} {batch : List Nat} {rounds : List Round} {R : Result}
+    (h : sendBatch info batch rounds = .ok R) {r c : Nat} (hs : Sent R.events (r + 1) c) :
+    Sent R.events r c := by
+  by_cases hbad : batch = [] ∨ ¬ ValidBatch info batch
+  · rw [sendBatch_unsent h hbad] at hs; exact absurd hs sent_nil
+  · have hne : batch ≠ [] := fun h0 => hbad (Or.inl h0)
+    have hv : ValidBatch info batch := Classical.byContradiction fun hv => hbad (Or.inr hv)
+    rw [sendBatch_valid hne hv] at h
+    obtain ⟨new, hev, _, _, h3, _⟩ := loop_events h (fun c hc => hc) (st0_length info batch)
+    have hev' : R.events = new := by simpa [st0] using hev
+    rw [hev'] at hs ⊢
+    exact (h3 c r (Nat.zero_le _) hs).1
+
 end GV.Batch
